@@ -34,15 +34,19 @@ def entryGs3Plan (args : List String) : String :=
   | [seed, k, r, unit, vec] =>
     match seed.toNat?, k.toNat?, r.toNat?, unit.toNat? with
     | some seed, some k, some r, some unit =>
-      let (cfg, st) := G.run gGs3Case (seed * 1000003 + k)
+      -- the generator's replies may carry extra field sections (`ConfigX`); the fault plans only use the challenge
+      -- of the configuration, the packets on the wire are those with the extras
+      let (cfgX, st) := G.run gGs3Case (seed * 1000003 + k)
+      let cfg : Config := cfgX.base
       let port := 29900 + k % 3
       let vars := k % 4 == 3
       let entry := if vars then "gs3vars" else "gs3"
       let stage : Stage := if unit == 0 then .handshake else .data
-      let arrival := dataPackets cfg st
+      let arrival := dataPacketsX cfgX st
       let (plan, left) := gs3PlanOfVector r stage vec.toList []
       let (lq, lf) := gs3Leftover cfg arrival stage left
-      let thm := Spec.wf cfg st && wfPlan r plan
+      -- the whole-query theorem under faults is stated for replies without extra sections
+      let thm := Spec.wf cfg st && (extrasOf cfgX.layout.flatten).isEmpty && wfPlan r plan
       let want := if vars then showRes showMap (faultyPackets cfg st plan >>= buildVars)
         else showRes showGs3Response (faultyExpected st plan)
       s!"{entry} {port} {r} {showDeliveries (faultyScript cfg plan arrival ++ lq)} f={showFaults (faultyFaults plan ++ lf)}"
